@@ -615,13 +615,7 @@ Step(i) == \/ MStart(i) \/ WSeen(i) \/ MHeadT(i) \/ MHeadT2(i) \/ MHeadS(i) \/ M
 \* object).  With Reduce, whenever some task is at a local step only the lowest such task moves.
 \* What remains interleaved are the writes and the waits on shared objects: one representative per
 \* commit order.  The small shapes are explored without it as well.
-Incoming(n) == LET RECURSIVE CntIn(_, _)
-                   CntIn(sq, j) == IF j > Len(sq) THEN 0 ELSE (IF sq[j][1] = n THEN 1 ELSE 0) + CntIn(sq, j + 1)
-                   RECURSIVE Sum(_)
-                   Sum(S) == IF S = {} THEN 0 ELSE LET m == CHOOSE m \in S : TRUE IN CntIn(KidsSeq(m), 1) + Sum(S \ {m})
-               IN Sum(Mans) + Cardinality({r \in Sh.refs : r[1] = n}) + Cardinality({d \in Sh.dtags : d[3] = n})
-                  + (IF n = Root THEN 1 ELSE 0)
-Unique(n) == Incoming(n) = 1
+Unique(n) == n \in (IF HasFB THEN Sh.uniqfb ELSE Sh.uniq)      \* precomputed in CopyShapes
 LocalPcs == {"headS", "headS2", "spawn", "dtags2", "bacq", "bmdel", "bget", "bpost", "bpost2", "bpatch"}
 IsLocal(j) ==
   LET t == tasks[j] IN
@@ -629,8 +623,9 @@ IsLocal(j) ==
   \/ t.pc = "getS" /\ t.node \in Mans
   \/ t.pc \in {"start", "bstart", "bhead", "headT", "headT2"} /\ t.tag = "" /\ t.via \in {"kid", "ref"} /\ Unique(t.node)
   \/ t.pc = "wait1" /\ t.err = "none"
-  \/ t.pc = "refs" /\ ~conf.referrers
-  \/ t.pc = "dtags" /\ ~conf.dtags
+  \/ t.pc = "refs" /\ (~conf.referrers \/ SrcIsDir \/ refFeat # "unknown")   \* (the first call settles refFeat)
+  \/ t.pc = "refs2"
+  \/ t.pc = "dtags" /\ (~conf.dtags \/ SrcIsDir \/ tagListed)                 \* (the first call lists the tags)
   \/ t.pc = "wait2" /\ \E c \in Ids : tasks[c].par = j /\ tasks[c].pc = "done" /\ ~tasks[c].got
   \/ t.pc = "wait2" /\ t.pend = 0 /\ t.err = "none" /\ (NeedPut(t) \/ (Unique(t.node) /\ t.tag = ""))
 Allowed(i) == LET A == {j \in Ids : IsLocal(j)} IN
